@@ -745,6 +745,19 @@ func genStageCases(op string) func(g *Gen, tier string, emit func(Case)) {
 				// the stage of the running system: stagemaker runs chrooted into the build root
 				// with -root /
 				c["slashroot"] = true
+				if flavour != 3 && i%2 == 0 {
+					// … and a wildcard source whose directory is the root directory itself
+					have := false
+					for _, o := range d.Objs {
+						have = have || o.P == "/srv"
+					}
+					if !have {
+						d.Objs = append(d.Objs, fobj{P: "/srv", T: "d", Mode: 0755, Mtime: 1500000003},
+							fobj{P: "/srv/top-file", T: "f", Mode: 0644, Mtime: 1500000004, Size: 17, Seed: int64(i)})
+					}
+					d.AddFiles = append(d.AddFiles, "dir /copies-of-top src=$$stageroot/sr*")
+					c["desc"] = d.toJSON()
+				}
 			}
 			emit(c)
 		}
